@@ -259,6 +259,7 @@ func NewPreamble() *Preamble {
 	p.Fun("cat", "(Bytes Bytes) Bytes")
 	p.Fun("bempty", "() Bytes")
 	p.Fun("H", "(Bytes) Bytes")
+	p.Fun("hlenH", "() Int") // output length of H
 	p.Fun("be64", "((_ BitVec 64)) Bytes")
 	p.Fun("be16", "((_ BitVec 16)) Bytes")
 	p.Fun("str_bytes", "(Str) Bytes")
@@ -335,7 +336,7 @@ func (p *Preamble) Text() string {
 			b.WriteString("(assert (distinct " + strings.Join(names, " ") + "))\n")
 		}
 	}
-	b.WriteString("(assert (= (blen bempty) 0))\n(assert (= (blen (be64 (_ bv0 64))) 8))\n")
+	b.WriteString("(assert (= (blen bempty) 0))\n(assert (= (blen (be64 (_ bv0 64))) 8))\n(assert (>= hlenH 1))\n")
 	for _, a := range p.axioms {
 		b.WriteString("(assert " + a + ")\n")
 	}
